@@ -79,6 +79,8 @@ def run_array(case):
         extra = man.get("extra", [])
         rep = {"case": list(case), "cfg": man["cfg"]}
         truth = truth_of(a)
+        if man.get("spec", {}).get("partial"):
+            return run_partial(a, man, truth, res, rep, name, rng, tier, variant)
         r = a.cmd("check", *extra, variant=variant)
         errs = [t for t in r.tags if t[0] in (b"error", b"parity_error", b"unrecoverable")]
         if r.rc != 0 or errs:
@@ -140,6 +142,64 @@ def run_array(case):
         if tpl:
             tpl.cleanup()
         a.cleanup()
+
+
+def run_partial(a, man, truth, res, rep, name, rng, tier, variant):
+    """An array the reference version left in the middle of a sync (new files recorded, not yet synced). Every file that was
+    completely synced at that point must still be rebuilt bit for bit by the tree under test after its disk loses it."""
+    import base64
+    tpl = None
+    try:
+        for cmd in ("status", "list", "diff"):
+            rr = a.cmd(cmd, variant=variant)
+            if rr.rc not in (0,) and not (cmd == "diff" and rr.rc == 2):
+                res["violations"].append(("reference-array-does-not-load", "%s: %s rc=%s %s" % (name, cmd, rr.rc, rr.err[-200:].decode("latin-1")), rep))
+                return res
+        res["counters"]["arrays"] = 1
+        synced = {}
+        for dn, sub64 in man["spec"]["synced"]:
+            synced.setdefault(a.disk_names.index(dn), []).append(base64.b64decode(sub64))
+        tpl = Template(a)
+        n = 0
+        disks = sorted(synced)
+        if tier == "quick" and len(disks) > 2:
+            disks = rng.sample(disks, 2)
+        for d in disks:
+            for how in (["all"] if tier == "quick" else ["all", "one"]):
+                tpl.restore()
+                subs = synced[d] if how == "all" else [rng.choice(synced[d])]
+                for sub in subs:
+                    os.unlink(os.path.join(os.fsencode(a.ddir(d)), sub))
+                rf = a.cmd("fix", "-d", a.disk_names[d], variant=variant)
+                n += 1
+                rep2 = dict(rep, lost_disk=a.disk_names[d], lost=evidence.jsonable(subs[:4]))
+                for s_ in rf.san:
+                    res["violations"].append(("sanitizer:" + A.san_key(s_), s_[:2500], rep2))
+                bad = []
+                for sub in subs:
+                    p = os.path.join(os.fsencode(a.ddir(d)), sub)
+                    want = truth[(d, sub)]
+                    try:
+                        with open(p, "rb") as f:
+                            got = f.read()
+                    except OSError:
+                        bad.append((sub, "not restored"))
+                        continue
+                    if got != want[1]:
+                        bad.append((sub, "other bytes"))
+                if bad:
+                    res["violations"].append(("reference-partial-sync-array-not-repairable", "%s (left by the reference after 'sync %s'): files that were "
+                                              "completely synced are not rebuilt after disk %s lost them: %s (fix rc=%s)" %
+                                              (name, " ".join(man["spec"]["how"]), a.disk_names[d], evidence.jsonable(bad[:3]), rf.rc), rep2))
+        res["counters"]["subsets"] = n
+        res["counters"]["partial_sync_arrays"] = 1
+        res["nontrivial"] = n > 0
+        res["n"] = n + 1
+        res["sample"] = {"array": name, "cfg": man["cfg"], "partial": man["spec"]["how"]}
+        return res
+    finally:
+        if tpl:
+            tpl.cleanup()
 
 
 def run_vectors(case):
